@@ -32,6 +32,8 @@ type RunSpec struct {
 	Cosim    int
 	Concrete map[string]interface{} // concrete-input mode (co-simulation trace sets)
 	MaxViol  int
+	Props    map[string]bool
+	ForkStats bool
 }
 
 type RunResult struct {
@@ -131,8 +133,11 @@ func (p *Program) Run(spec RunSpec) (*RunResult, error) {
 					cfg := &Config{Unwind: spec.Unwind, TimeoutMs: spec.SolverMs, XCheck: spec.XCheck, XCheck2: spec.XCheck2,
 						Subst: spec.Subst, KnownIDs: spec.Known, MaxViol: spec.MaxViol, Cosim: spec.Cosim, Fuse: spec.Fuse,
 						Harness: spec.Entry + fmt.Sprint(spec.Args), MergeAt: mergeAt, Deadline: deadline, concrete: spec.Concrete,
-						split: spec.Split}
+						split: spec.Split, Props: spec.Props}
 					w = NewWorker(p, cfg)
+					if spec.ForkStats {
+						w.st.ForkSites = map[string]int{}
+					}
 					w.export = func(trail []int) {
 						mu.Lock()
 						queue = append(queue, job{trail})
@@ -196,6 +201,12 @@ func mergeStats(t, s *Stats) {
 	t.TrivialAsserts += s.TrivialAsserts
 	t.NontrivialAsserts += s.NontrivialAsserts
 	t.Unknown += s.Unknown
+	t.OneShot += s.OneShot
+	for i, v := range s.Hist {
+		t.Hist[i] += v
+	}
+	t.HistT[0] += s.HistT[0]
+	t.HistT[1] += s.HistT[1]
 	t.Merged += s.Merged
 	t.SolverTime += s.SolverTime
 	for k, v := range s.MaxUnwind {
@@ -217,6 +228,12 @@ func mergeStats(t, s *Stats) {
 	}
 	for k, v := range s.AssertUnsat {
 		t.AssertUnsat[k] += v
+	}
+	for k, v := range s.ForkSites {
+		if t.ForkSites == nil {
+			t.ForkSites = map[string]int{}
+		}
+		t.ForkSites[k] += v
 	}
 	for k := range s.PropQueryKeys {
 		t.PropQueryKeys[k] = true
@@ -240,6 +257,7 @@ func (r *RunResult) Summary() string {
 	fmt.Fprintf(&sb, "%s%v: paths=%d dead=%d crashed=%d forks=%d merged=%d steps=%d feasQ=%d propQ=%d xQ=%d asserts(trivial=%d, solver=%d) solver=%.1fs wall=%.1fs\n",
 		r.Spec.Entry, r.Spec.Args, st.Paths, st.Dead, st.Crashed, st.Forks, st.Merged, st.Steps, st.FeasQueries, st.PropQueries, st.XQueries,
 		st.TrivialAsserts, st.NontrivialAsserts, st.SolverTime.Seconds(), r.Wall.Seconds())
+	fmt.Fprintf(&sb, "  primary-solver query times: <5ms:%d <50ms:%d <500ms:%d <1.4s:%d >=1.4s:%d  (fast total %.1fs, slow total %.1fs) one-shot=%d\n", st.Hist[0], st.Hist[1], st.Hist[2], st.Hist[3], st.Hist[4], st.HistT[0].Seconds(), st.HistT[1].Seconds(), st.OneShot)
 	var cv []string
 	for k, v := range st.Covers {
 		cv = append(cv, fmt.Sprintf("%s=%d", k, v))
@@ -257,6 +275,17 @@ func (r *RunResult) Summary() string {
 	}
 	for k, v := range st.Known {
 		fmt.Fprintf(&sb, "  KNOWN %s inputs=%v\n", k, v.Inputs)
+	}
+	if st.ForkSites != nil {
+		var fs []string
+		for k, v := range st.ForkSites {
+			fs = append(fs, fmt.Sprintf("%6d %s", v, k))
+		}
+		sort.Sort(sort.Reverse(sort.StringSlice(fs)))
+		if len(fs) > 25 {
+			fs = fs[:25]
+		}
+		sb.WriteString("  fork sites:\n    " + strings.Join(fs, "\n    ") + "\n")
 	}
 	seen := map[string]int{}
 	for _, x := range st.Inconclusive {
